@@ -286,7 +286,7 @@ func c12One(r *fw.Rec, ws *writerSpec) bool {
 		h = 50
 	}
 	info := map[string]interface{}{"writer": ws.Name, "format": format.String(), "content_hex": fmt.Sprintf("%x", clipStr(content, 200)), "content_len": len(content), "width": w, "height": h, "hints": hdesc}
-	hintsBefore := fmt.Sprint(hints)
+	hintsBefore := hintsSnapshot(hints)
 	var bm *gozxing.BitMatrix
 	var err error
 	exceeded := false
@@ -321,7 +321,7 @@ func c12One(r *fw.Rec, ws *writerSpec) bool {
 		r.Violation("totality", "encode:result-xor-error:"+ws.Name, fmt.Sprintf("%s returned matrix=%v err=%v", call, bm != nil, err), info)
 		return false
 	}
-	if hints != nil && fmt.Sprint(hints) != hintsBefore {
+	if hints != nil && hintsSnapshot(hints) != hintsBefore {
 		r.Violation("model-mismatch", "encode:hint-map-changed-by-the-writer:"+ws.Name, fmt.Sprintf("%s changed the caller's hint map from %s to %v", call, hintsBefore, hints), info)
 		return false
 	}
